@@ -25,6 +25,14 @@ PART = {
     fidelity={"Impl.Rle (dependency: the dictionary indices and levels of every page go through the hybrid decoder)": "exact"},
     rule="rle (shared with C11 / C12 / C08): hybrid streams of every bit width 0..32 - RLE runs whose repeated value needs 1, 2, 3 or 4 bytes, bit-packed groups, mixed - decoded by the real decoders (carquet_rle_decode_all is the decoder of the dictionary indices of a data page) and compared with the model the whole-file theorem composes",
   ),
+  "C07": dict(
+    imports=["Carquet.Properties.C07.FailureFlag"],
+    obligations=["Carquet.Properties.C07.FailureFlag.C07_failure_flag_race_free", "Carquet.Properties.C07.FailureFlag.C07_repaired_loop_race_free",
+                 "Carquet.Properties.C07.FailureFlag.C07_regression_F99"],
+    components=[],
+    fidelity={"Properties.C07.FailureFlag (F99): the access history of the batch reader's shared failure flag inside the parallel loop": "structural (which worker fails is a parameter; the tie is the ThreadSanitizer run of component partsan)"},
+    text="(F99) the failure flag shared by the column workers is accessed atomically inside the parallel loop: no interleaving of worker iterations has a data race on it (C07_repaired_loop_race_free; the pinned plain bool raced as soon as two workers failed or one failed while another tested the flag: C07_regression_F99, found by the thorough tier's ThreadSanitizer run)",
+  ),
   "C17": dict(
     imports=[], obligations=[], components=["refread"], pregen={"refread": "reffiles"},
     rule="refread (shared with C06): the reference files with nested schemas (repeated / optional groups to depth 3) are read column by column through carquet_reader_get_column in three modes: every leaf the schema lists must be readable as a column and deliver the stored levels",
